@@ -89,11 +89,22 @@ package auth
 //@   modifies alloc
 //@
 //@ func (*Client).fetchDistributionToken
-//@   trusted
+//@   serves C16
+//@   requires [wf] c != nil
+//@   call NewRequestWithContext requires [C16:token-request-goes-to-the-challenge-realm] args.url == realm
+//@   call SetBasicAuth requires [C16:basic-auth-carries-the-given-credential-to-the-realm] reqTarget(args.r) == realm && args.username == username && args.password == password
+//@   call send requires [C16:only-the-realm-request-is-sent] reqTarget(args.req) == realm
+//@   loop 0 invariant [wf] req != nil && req.URL != nil && alive(req) && reqTarget(req) == realm
 //@   modifies alloc, ghost.consumedBody, ghost.trips, ghost.closedRC
+//@   opt trust-frame
 //@ func (*Client).fetchOAuth2Token
-//@   trusted
+//@   serves C16
+//@   requires [wf] c != nil
+//@   call NewRequestWithContext requires [C16:token-request-goes-to-the-challenge-realm] args.url == realm
+//@   call send requires [C16:only-the-realm-request-is-sent] reqTarget(args.req) == realm
+//@   call Values.Set requires [C16:form-carries-the-given-credential] (args.key == "refresh_token" ==> args.value == cred.RefreshToken) && (args.key == "password" ==> args.value == cred.Password) && (args.key == "username" ==> args.value == cred.Username)
 //@   modifies alloc, ghost.consumedBody, ghost.trips, ghost.closedRC
+//@   opt trust-frame
 //@
 //@ func (*Client).fetchBearerToken
 //@   call credential requires [C16:credentials-read-for-request-host] args.reg == registry
